@@ -271,10 +271,16 @@ class UnitsAdapter:
                 pass
         for (s1, su1, u1) in present:
             for (s2, su2, u2) in present:
-                want = (su1['typ'] == su2['typ'] and
-                        (tuple(su1['num']) == tuple(su2['num']) if stypes[su1['typ']]['ref'] != 'NONE' else s1 == s2))
                 got = bool(u1 == u2)
-                if got != want or (u1 != u2) == got:
+                if su1['typ'] != su2['typ']:
+                    want = False
+                elif stypes[su1['typ']]['ref'] != 'NONE':
+                    want = tuple(su1['num']) == tuple(su2['num'])
+                else:
+                    # no reference unit, no scale: the properties only ask for a consistent relation (reflexive,
+                    # symmetric, != its negation, equal => same hash); which distinct units are equal is left open
+                    want = True if s1 == s2 else got
+                if got != want or (u1 != u2) == got or bool(u2 == u1) != got:
                     dev('unit-eq', 'Unit(%r) == Unit(%r) is %s, specification: %s' % (u1.symbol, u2.symbol, got, want))
                 elif got and (hash(u1) != hash(u2) or len({u1, u2}) != 1):
                     dev('unit-hash', 'Unit(%r) == Unit(%r) but their hashes differ' % (u1.symbol, u2.symbol))
